@@ -30,6 +30,9 @@ Many == { w \o ":" \o n : w \in {"desc", "enum"}, n \in {"2000", "100000"} }
 Cases ==
     [dec : Decs, mut : Generic, arg : {"none"}] \cup
     [dec : ListDecoders, mut : {"manyentries"}, arg : Many] \cup
+    \* one item replaced by a well-formed value of another type (integers at the limits, empty / nested containers,
+    \* booleans, null, undefined, floats, tags, indefinite-length items; JSON: null, numbers at the limits, nesting)
+    [dec : CborDecoders \cup JsonDecoders \cup {"authdata"}, mut : {"retype"}, arg : {"none"}] \cup
     \* a string member resized consistently (well-formed CBOR, unexpected member length: key coordinates, hashes, ids)
     [dec : CborDecoders \cup {"authdata"}, mut : {"resize"}, arg : {"zero", "minus1", "plus1", "double"}] \cup
     [dec : CborDecoders, mut : {"bigseq"}, arg : BigSeq] \cup
